@@ -590,7 +590,7 @@ func snap(r *http.Request) reqSnap { return reqSnap{r.Method, r.URL.String(), en
 // ResolveReference), computed here with the standard library only.
 // shownURL: the URL as text (with SetPath: what url.URL.String makes of the value the request carries)
 func shownURL(op Op) string {
-	if op.SetPath == "" {
+	if op.SetPath == "" && op.Host == "" {
 		return op.URL
 	}
 	if u, err := opURL(op); err == nil {
@@ -762,6 +762,9 @@ func runHistory(t *testing.T, h *History) (lines []string) {
 			}
 			if op.SetPath != "" {
 				req.URL.Path, req.URL.RawPath = op.SetPath, ""
+			}
+			if op.Host != "" {
+				req.Host = op.Host
 			}
 			if op.Method == "(empty)" {
 				req.Method = ""
